@@ -40,20 +40,26 @@ static void hops_at_acquire(void);
 enum { error_success = 0, error_out_of_memory = 7, error_bad_parameter = 9 };   /* opaque tokens (never compared with pika's values) */
 struct error_code { int value; };
 struct scheduler_base { int unused; };
-struct thread_init_data { int8_t initial_state; int8_t stacksize; int8_t priority; bool run_now; };
+struct hint { int16_t hint; int8_t mode; };      /* pika::execution::thread_schedule_hint */
+struct thread_init_data { int8_t initial_state; int8_t stacksize; int8_t priority; bool run_now; struct hint schedulehint; };
 struct params {
+  ptrdiff_t small_stacksize_, medium_stacksize_, large_stacksize_, huge_stacksize_, nostack_stacksize_;
   int64_t max_thread_count_, min_add_new_count_, max_add_new_count_, max_delete_count_, min_delete_count_, max_terminated_threads_;
 };
+/* std::vector<thread_id_type> free list: number of objects, "the victim object is one of them", and which element back() /
+ * pop_back() are talking about (decided at back()) */
+struct heap { long n; bool has_victim; bool back_chosen, back_is_victim; };
 struct tq {
   struct params parameters_;
   struct vx_mutex mtx_;
+  struct heap thread_heap_small_, thread_heap_medium_, thread_heap_large_, thread_heap_huge_, thread_heap_nostack_;
   int64_t thread_map_count_, terminated_items_count_, new_tasks_count_, work_items_count_;
   /* ghost: ledger of THIS queue's new_tasks_ (see NTINV) and the operations of the call under verification on it (exact) */
   long gs_entries, gs_resv, gs_owed;
   bool gs_victim;
   long gs_pushes, gs_pops, gs_incs, gs_decs;
 };
-struct thread_data { int queue_; int8_t made_state; };   /* queue_: Q_ID of the queue that created it; made_state: initial_state it was created / rebound with */
+struct thread_data { int queue_; int8_t made_state; ptrdiff_t stacksize_; };   /* queue_: Q_ID of the queue that created it; made_state: initial_state it was created / rebound with */
 typedef struct thread_data *thread_id_ref_type;
 typedef struct thread_data *thread_id_type;
 #define invalid_thread_id NULL
@@ -66,11 +72,12 @@ static struct tq g_q0, g_q1;                     /* the two queue objects (add_n
 struct hops {
   int exc;                                       /* != 0: an exception propagates out of the call (token = error value) */
   int err;                                       /* != 0: an error was reported (exception or error_code) */
-  struct thread_data victim_td, other_td;
+  struct thread_data victim_td, other_td, new_td;
   struct task_description victim_task, other_task, new_task;
   struct thread_init_data victim_init, other_init;
   /* where the victim is (besides q->gs_victim) */
   bool v_mine, v_map, v_queued, v_term, v_heap;
+  bool env_moved;                                /* an environment step (another worker) moved the victim during the call */
   /* staged */
   long pops, v_pops;
   long task_allocs, task_ctors, task_dtors, task_frees; int ctor_from, freed_last, last_pop, push_id;
@@ -80,10 +87,12 @@ struct hops {
   long cto, v_cto; int cto_data; int8_t cto_requested;
   long sched, v_sched; int sched_id; bool sched_other_end;
   /* terminated */
-  long term, term_pend, term_owed, term_pushes, term_pops, term_incs, term_decs, v_term_pushes, v_term_pops; int term_push_id;
-  bool touched_after_push;
+  long term, term_pend, term_resv, term_owed, term_pushes, term_pops, term_incs, term_decs, v_term_pushes, v_term_pops; int term_push_id;
+  int64_t last_term_load;
+  long cleanups, ctl_calls; bool cleanup_arg, ctl_arg, ctl_last;
   /* heaps */
   long recycles, v_recycles; int recycle_id;
+  long heap_pushes, heap_pops, v_heap_pushes, v_heap_pops, rebinds, creates; int heap_push_id, rebind_id; bool created_stackless, lock_released;
 };
 static struct hops G;
 /* configuration of the harness: written by the harness only, never in a frame */
@@ -91,6 +100,7 @@ struct hops_cfg {
   int self;                                      /* Q_ID of the queue the call runs on (the RECEIVER in add_new) */
   bool expect_steal;
   bool term_pops_by_others;                      /* false while this call holds mtx_: terminated_items_ is popped only under the lock */
+  bool lemma;                                    /* lemma harness: the hop preconditions on the victim are assumed instead of asserted */
 };
 static struct hops_cfg CFG;
 static struct error_code throws;                 /* pika::throws: the address is the "please throw" marker */
@@ -136,7 +146,9 @@ static struct error_code throws;                 /* pika::throws: the address is
 #define g_term_decs G.term_decs
 #define g_v_term_pushes G.v_term_pushes
 #define g_v_term_pops G.v_term_pops
-#define TD_ID(p) ((p) == &G.victim_td ? 1 : (p) == &G.other_td ? 2 : 0)
+#define g_recycles G.recycles
+#define g_v_recycles G.v_recycles
+#define TD_ID(p) ((p) == &G.victim_td ? 1 : (p) == &G.other_td ? 2 : (p) == &G.new_td ? 3 : 0)
 #define TASK_ID(p) ((p) == &G.victim_task ? 1 : (p) == &G.other_task ? 2 : (p) == &G.new_task ? 3 : 0)
 #define DATA_ID(p) ((p) == &G.victim_task.data ? 1 : (p) == &G.other_task.data ? 2 : (p) == &G.victim_init ? 3 : (p) == &G.other_init ? 4 : 0)
 #define IS_VICTIM_DATA(p) ((p) == &G.victim_task.data || (p) == &G.victim_init)
@@ -159,6 +171,9 @@ static void tid_release(thread_id_ref_type *p)
                (!gv_mine || !(gv_queued || gv_term || gv_heap)) && \
                (!gv_heap || !(gv_map || gv_queued || gv_term)) && \
                (!gv_queued || (gv_map && !gv_term)) && (!gv_term || gv_map))
+/* the victim part of a hop's precondition: an obligation of the caller in every unit; the lemma harness (hops_lemma.c) assumes
+ * it instead, to state "from any state with the victim in exactly one place, ANY single hop whose precondition holds ..." */
+#define HOP_REQUIRE(c, msg) do { if (CFG.lemma) VX_ASSUME(c); else VX_ASSERT(c, msg); } while (0)
 #define VP_CHECK(what) VX_ASSERT(VP_OK, "victim in exactly one place after " what)
 
 /* ---- the staged queue new_tasks_ and its counter ---- */
@@ -173,7 +188,7 @@ static void nt_interfere(struct tq *q)
   {
     q->new_tasks_count_ = nondet_i64();
     q->gs_entries = nondet_long();
-    if (q->gs_victim && nondet_bool()) q->gs_victim = false;
+    if (q->gs_victim && nondet_bool()) { q->gs_victim = false; G.env_moved = true; }
     VX_ASSUME(NTRANGE(q, 8) && NTINV(q));
   }
 }
@@ -213,7 +228,7 @@ static bool nt_push(struct tq *q, task_handle td)
   VX_ASSERT(q->gs_resv >= 1, "new_tasks_count_ is incremented BEFORE the insertion it describes (it never under-approximates)");
   if (td == 1 || (td == 3 && G.ctor_from == 3))
   {
-    VX_ASSERT(gv_mine && !GV_STAGED, "a task is never staged twice / never staged while it exists elsewhere");
+    HOP_REQUIRE(gv_mine && !gv_map && !GV_STAGED, "a task is never staged twice / never staged while it exists elsewhere");
     q->gs_victim = true; gv_mine = false;
   }
   q->gs_entries++; q->gs_resv--; q->gs_pushes++; G.push_id = td;
@@ -226,7 +241,6 @@ static bool nt_push(struct tq *q, task_handle td)
 static bool nt_pop(struct tq *q, task_handle *out, bool steal)
 {
   nt_interfere(q);
-  VX_ASSERT(steal == g_expect_steal, "the caller's steal flag is passed to the container");
   if (q->gs_entries >= 1 && nondet_bool())
   {
     VX_ASSUME(g_pops < VX_BIG);                  /* ghost bound: fewer than 10^9 conversions per call (listed) */
@@ -256,7 +270,7 @@ static struct map_ins map_insert(struct tq *q, thread_id_type id)
   G.ins_id = TD_ID(id);
   if (present) { r.second = false; g_ins_fail++; return r; }
   VX_ASSUME(g_map < VX_BIG - 8);                 /* ghost bound on the number of live threads of one queue (listed) */
-  if (id == &g_victim_td) { VX_ASSERT(gv_mine, "the thread inserted into the map is the one this call just created"); gv_map = true; BUMP(g_v_ins); }
+  if (id == &g_victim_td) { HOP_REQUIRE(gv_mine, "the thread inserted into the map is the one this call just created"); gv_map = true; BUMP(g_v_ins); }
   g_map++; g_map_pend++; g_ins++;
   VP_CHECK("thread_map_.insert");
   r.second = true;
@@ -275,9 +289,9 @@ static size_t map_erase(struct tq *q, thread_id_type id)
   bool present = (id == &g_victim_td) ? gv_map : true;
   if (!present) return 0;
   VX_ASSUME(g_map >= 1 && (id == &g_victim_td || !gv_map || g_map >= 2));   /* the set holds what is in it */
-  if (id == &g_victim_td) { VX_ASSERT(gv_mine && !gv_queued && !gv_term, "a thread leaves the map only after it left every queue"); gv_map = false; BUMP(g_v_erases); }
+  if (id == &g_victim_td) { HOP_REQUIRE(gv_mine && !gv_queued && !gv_term, "a thread leaves the map only after it left every queue"); gv_map = false; BUMP(g_v_erases); }
+  VX_ASSUME(g_erases < VX_BIG);
   g_map--; g_map_owed++; g_erases++;
-  VP_CHECK("thread_map_.erase");
   return 1;
 }
 static int64_t atomic_inc_thread_map_count_(struct tq *q)
@@ -297,19 +311,23 @@ static int64_t atomic_dec_thread_map_count_(struct tq *q)
 }
 static int64_t atomic_load_thread_map_count_(struct tq *q) { return q->thread_map_count_; }
 
+#define TERMRANGE(q, slack) (g_term >= 0 && g_term <= VX_BIG - (slack) && (q)->terminated_items_count_ >= -VX_BIG && (q)->terminated_items_count_ <= VX_BIG - (slack))
+#define TERMINV(q) (TERMRANGE(q, 0) && (!gv_term || g_term >= 1))
 /* monitor: what the lock protects is consistent whenever it is released; while it is free the other workers change the
  * map (and move a victim that is not in this call's hands and not staged) under the same invariant */
 static void hops_at_release(void)
 {
   VX_ASSERT(g_self->thread_map_count_ == g_map && g_map_pend == 0 && g_map_owed == 0, "thread_map_count_ == number of map entries whenever mtx_ is released");
+  VP_CHECK("the critical section");
 }
 static void hops_at_acquire(void)
 {
   if (nondet_bool())
   {
     g_map = nondet_long(); g_self->thread_map_count_ = g_map;
-    if (!gv_mine && !GV_STAGED) { gv_map = nondet_bool(); gv_queued = nondet_bool(); gv_term = nondet_bool(); gv_heap = nondet_bool(); }
-    VX_ASSUME(MAPRANGE(g_self, 8) && MAPINV(g_self) && VP_OK);
+    g_term = nondet_long(); g_self->terminated_items_count_ = nondet_i64();      /* ... and drain / fill terminated_items_ */
+    if (!gv_mine && !GV_STAGED) { gv_map = nondet_bool(); gv_queued = nondet_bool(); gv_term = nondet_bool(); gv_heap = nondet_bool(); G.env_moved = true; }
+    VX_ASSUME(MAPRANGE(g_self, 8) && MAPINV(g_self) && VP_OK && TERMRANGE(g_self, 8) && TERMINV(g_self));
   }
 }
 #define OWNS(lk) ((lk)->owns && (lk)->m->held)
@@ -328,7 +346,7 @@ static void cto(struct tq *q, thread_id_ref_type *thrd, struct thread_init_data 
   if (nondet_bool()) { ulock_unlock(lk); ulock_lock(lk); }          /* no recyclable object: allocation with the lock released */
   if (IS_VICTIM_DATA(data))
   {
-    VX_ASSERT(gv_mine && g_v_cto == 0 && !gv_map, "one thread object per task");
+    HOP_REQUIRE(gv_mine && g_v_cto == 0 && !gv_map, "one thread object per task");
     BUMP(g_v_cto); *thrd = &g_victim_td;
   }
   else *thrd = &g_other_td;
@@ -336,7 +354,7 @@ static void cto(struct tq *q, thread_id_ref_type *thrd, struct thread_init_data 
 }
 static struct tq *td_get_queue(struct thread_data *t)
 {
-  VX_ASSERT(!(t == &g_victim_td && G.touched_after_push), "the thread object is not touched after it was handed to terminated_items_");
+  VX_ASSERT(G.term_push_id == 0 || TD_ID(t) != G.term_push_id, "the thread object is not touched after it was handed to terminated_items_ (it may be recycled at once)");
   return t->queue_ == 1 ? &g_q0 : t->queue_ == 2 ? &g_q1 : NULL;
 }
 
@@ -348,8 +366,8 @@ static void tq_schedule_thread(struct tq *q, thread_id_ref_type thrd, bool other
   VX_ASSERT(thrd != NULL, "schedule_thread precondition: non-empty id");
   if (thrd == &g_victim_td)
   {
-    VX_ASSERT(gv_mine && !gv_queued, "schedule_thread precondition: the caller holds the thread and it is not queued");
-    VX_ASSERT(gv_map, "a thread is in the map of its queue before it becomes pending");
+    HOP_REQUIRE(gv_mine && !gv_queued, "schedule_thread precondition: the caller holds the thread and it is not queued");
+    HOP_REQUIRE(gv_map, "a thread is in the map of its queue before it becomes pending");
     gv_queued = true; gv_mine = false; BUMP(g_v_sched);
   }
   if (nondet_bool()) q->work_items_count_ = nondet_i64();           /* other workers push and pop at any time */
@@ -361,8 +379,6 @@ static void tq_schedule_thread(struct tq *q, thread_id_ref_type thrd, bool other
 }
 
 /* ---- terminated_items_ and terminated_items_count_ ---- */
-#define TERMRANGE(q, slack) (g_term >= 0 && g_term <= VX_BIG - (slack) && (q)->terminated_items_count_ >= -VX_BIG && (q)->terminated_items_count_ <= VX_BIG - (slack))
-#define TERMINV(q) (TERMRANGE(q, 0) && (!gv_term || g_term >= 1))
 static void term_interfere(struct tq *q)
 {
   if (nondet_bool())
@@ -370,7 +386,7 @@ static void term_interfere(struct tq *q)
     long e = nondet_long();
     VX_ASSUME(CFG.term_pops_by_others || e >= g_term);                /* other destroy_thread calls push (and count) at any time */
     g_term = e; q->terminated_items_count_ = nondet_i64();
-    if (!gv_mine && gv_map && !gv_queued && !gv_term && nondet_bool()) gv_term = true;   /* ... possibly the victim, once its last reference died */
+    if (!gv_mine && gv_map && !gv_queued && !gv_term && nondet_bool()) { gv_term = true; G.env_moved = true; }   /* ... possibly the victim, once its last reference died */
     VX_ASSUME(TERMRANGE(q, 8) && TERMINV(q));
   }
 }
@@ -380,11 +396,12 @@ static void term_push(struct tq *q, struct thread_data *t)
   VX_ASSERT(q == g_self && t != NULL, "terminated_items_ of the thread's own queue");
   if (t == &g_victim_td)
   {
-    VX_ASSERT(gv_mine && gv_map && !gv_queued && !gv_term && !gv_heap, "a thread is destroyed once, and never while it is still queued");
-    gv_term = true; gv_mine = false; BUMP(g_v_term_pushes); G.touched_after_push = true;
+    HOP_REQUIRE(gv_mine && gv_map && !gv_queued && !gv_term && !gv_heap, "a thread is destroyed once, and never while it is still queued");
+    gv_term = true; gv_mine = false; BUMP(g_v_term_pushes);
   }
   VX_ASSUME(g_term < VX_BIG - 8);
-  g_term++; g_term_pend++; g_term_pushes++; G.term_push_id = TD_ID(t);
+  if (G.term_resv >= 1) G.term_resv--; else g_term_pend++;
+  g_term++; g_term_pushes++; G.term_push_id = TD_ID(t);
   VP_CHECK("terminated_items_.push");
 }
 static bool term_pop(struct tq *q, struct thread_data **out)
@@ -405,26 +422,141 @@ static bool term_pop(struct tq *q, struct thread_data **out)
 static int64_t atomic_inc_terminated_items_count_(struct tq *q)
 {
   term_interfere(q);
-  VX_ASSERT(g_term_pend >= 1, "terminated_items_count_ is incremented once per push, after the push it describes");
-  q->terminated_items_count_ = q->terminated_items_count_ + 1; g_term_pend--; g_term_incs++;
+  /* the code pushes first and counts afterwards; counting first would be as good: one increment per push, on the same path */
+  if (g_term_pend >= 1) g_term_pend--; else { VX_ASSERT(G.term_resv == 0, "terminated_items_count_ is incremented once per push"); G.term_resv++; }
+  q->terminated_items_count_ = q->terminated_items_count_ + 1; g_term_incs++;
   return q->terminated_items_count_;
 }
 static int64_t atomic_dec_terminated_items_count_(struct tq *q)
 {
   term_interfere(q);
   VX_ASSERT(g_term_owed >= 1, "terminated_items_count_ is decremented once per pop, after the pop it describes");
+  VX_ASSUME(q->terminated_items_count_ > -VX_BIG + 8);             /* counter bound (listed) */
   q->terminated_items_count_ = q->terminated_items_count_ - 1; g_term_owed--; g_term_decs++;
   return q->terminated_items_count_;
 }
-static int64_t atomic_load_terminated_items_count_(struct tq *q) { term_interfere(q); return q->terminated_items_count_; }
+static int64_t atomic_load_terminated_items_count_(struct tq *q) { term_interfere(q); G.last_term_load = q->terminated_items_count_; return q->terminated_items_count_; }
+
+/* `thread_data* todelete` is assigned in a loop guard: handle instead of pointer (see task_handle): 0 null, 1 victim, 2 other */
+typedef int td_handle;
+#define TDP(h) ((h) == 1 ? &G.victim_td : (h) == 2 ? &G.other_td : (struct thread_data *) NULL)
+static bool term_pop_h(struct tq *q, td_handle *out)
+{
+  struct thread_data *t = NULL;
+  bool r = term_pop(q, &t);
+  if (r) *out = TD_ID(t);
+  return r;
+}
+
+/* ---- thread_queue::recycle_thread: contract stub (unit hops.heap.recycle_thread: pushed onto exactly one free list, once) ---- */
+static void tq_recycle_thread(struct tq *q, thread_id_type t)
+{
+  VX_ASSERT(q == g_self && LOCKED(q), "the free lists are accessed only under mtx_");
+  VX_ASSERT(t != NULL, "a null id is never recycled");
+  if (t == &g_victim_td)
+  {
+    HOP_REQUIRE(gv_mine && !gv_queued && !gv_term && !gv_heap, "a thread object is recycled once, after it left every queue");
+    gv_heap = true; gv_mine = false; BUMP(g_v_recycles);
+  }
+  VX_ASSUME(g_recycles < VX_BIG);
+  g_recycles++; G.recycle_id = TD_ID(t);
+}
+
+/* ---- thread_queue::cleanup_terminated(delete_all): contract stub for destroy_thread (unit hops.tq.cleanup_terminated): takes
+ * the lock itself; drains terminated_items_ -- whatever is in there may be erased from the map and recycled ---- */
+static bool tq_cleanup_terminated(struct tq *q, bool delete_all)
+{
+  VX_ASSERT(q == g_self && !LOCKED(q), "cleanup_terminated takes mtx_ itself: the caller must not hold it");
+  BUMP(G.cleanups); G.cleanup_arg = delete_all;
+  if (nondet_bool())
+  {
+    g_term = nondet_long(); q->terminated_items_count_ = nondet_i64(); g_map = nondet_long(); q->thread_map_count_ = g_map;
+    if (!gv_mine && gv_term && nondet_bool()) { gv_term = false; gv_map = false; gv_heap = true; G.env_moved = true; }
+    VX_ASSUME(TERMRANGE(q, 8) && TERMINV(q) && MAPRANGE(q, 8) && MAPINV(q));
+  }
+  return nondet_bool();
+}
+/* ---- thread_queue::cleanup_terminated_locked(delete_all): contract stub for cleanup_terminated (unit hops.tq.cleanup_terminated_locked) ---- */
+static bool tq_cleanup_terminated_locked(struct tq *q, bool delete_all)
+{
+  VX_ASSERT(q == g_self && LOCKED(q), "cleanup_terminated_locked precondition: mtx_ is held");
+  VX_ASSUME(G.ctl_calls < VX_BIG);
+  G.ctl_calls++; G.ctl_arg = delete_all; G.ctl_last = nondet_bool();
+  return G.ctl_last;
+}
+
+/* ---- the free lists thread_heap_* (std::vector, under mtx_) and the thread_data factory functions ---- */
+#define HEAP_RANGE(h) ((h)->n >= 0 && (h)->n <= VX_BIG && (!(h)->has_victim || (h)->n >= 1))
+#define HEAPS_OK(q) (HEAP_RANGE(&(q)->thread_heap_small_) && HEAP_RANGE(&(q)->thread_heap_medium_) && HEAP_RANGE(&(q)->thread_heap_large_) && \
+                     HEAP_RANGE(&(q)->thread_heap_huge_) && HEAP_RANGE(&(q)->thread_heap_nostack_))
+#define HEAP_VICTIMS(q) ((q)->thread_heap_small_.has_victim + (q)->thread_heap_medium_.has_victim + (q)->thread_heap_large_.has_victim + \
+                         (q)->thread_heap_huge_.has_victim + (q)->thread_heap_nostack_.has_victim)
+static ptrdiff_t g_requested_size;               /* what scheduler_base::get_stack_size answers (harness configuration) */
+static ptrdiff_t scheduler_get_stack_size(struct thread_init_data *d, int8_t cls) { return g_requested_size; }
+static ptrdiff_t thread_get_stack_size(struct thread_data *t) { return t->stacksize_; }
+static void thread_rebind(struct thread_data *t, struct thread_init_data *data) { BUMP(G.rebinds); G.rebind_id = TD_ID(t); t->made_state = data->initial_state; }
+static bool heap_empty(struct heap *h) { return h->n == 0; }
+static struct thread_data *heap_back(struct heap *h)
+{
+  VX_ASSERT(h->n >= 1, "vector::back() on an empty free list");
+  if (!h->back_chosen) { h->back_chosen = true; h->back_is_victim = h->has_victim && (h->n == 1 || nondet_bool()); }
+  return h->back_is_victim ? &G.victim_td : &G.other_td;
+}
+static void heap_pop_back(struct heap *h)
+{
+  VX_ASSERT(h->n >= 1, "vector::pop_back() on an empty free list");
+  if (!h->back_chosen) { h->back_chosen = true; h->back_is_victim = h->has_victim && (h->n == 1 || nondet_bool()); }
+  if (h->back_is_victim) { h->has_victim = false; gv_heap = false; gv_mine = true; BUMP(G.v_heap_pops); }
+  h->n--; h->back_chosen = false; BUMP(G.heap_pops);
+}
+static void heap_push_back(struct heap *h, struct thread_data *t)
+{
+  VX_ASSERT(t != NULL, "a null id is never recycled");
+  if (t == &G.victim_td)
+  {
+    HOP_REQUIRE(!gv_heap && !h->has_victim, "a thread object is never on a free list twice");
+    HOP_REQUIRE(gv_mine && !gv_queued && !gv_term, "a thread object is recycled only after it left every queue");
+    h->has_victim = true; gv_heap = true; gv_mine = false; BUMP(G.v_heap_pushes);
+  }
+  VX_ASSUME(h->n < VX_BIG);
+  h->n++; h->back_chosen = false; BUMP(G.heap_pushes); G.heap_push_id = TD_ID(t);
+}
+static struct thread_data *create_td(struct thread_init_data *d, struct tq *q, ptrdiff_t stacksize, bool stackless)
+{
+  G.lock_released = !LOCKED(q);                   /* (allocation with the lock released: a liveness concern, not decided here) */
+  BUMP(G.creates); G.created_stackless = stackless;
+  G.new_td.queue_ = Q_ID(q); G.new_td.made_state = d->initial_state; G.new_td.stacksize_ = stacksize;
+  return &G.new_td;
+}
+#define create_stackful(d, q, s) create_td(d, q, s, false)
+#define create_stackless(d, q, s) create_td(d, q, s, true)
+static struct thread_data *id_ref_make(struct thread_data *p, int addref) { return p; }
+static void heap_init(struct heap *h) { h->n = nondet_long(); h->has_victim = false; h->back_chosen = false; h->back_is_victim = false; }
+
+/* ---- thread_queue::add_new: contract stub for add_new_always (unit hops.tq.add_new) ---- */
+struct addnew_rec { long calls; int64_t add_count; int from; bool lk_ok, steal; size_t ret; };
+static struct addnew_rec AN;
+static struct ulock *g_exp_lk;
+static size_t tq_add_new(struct tq *q, int64_t add_count, struct tq *addfrom, struct ulock *lk, bool steal)
+{
+  VX_ASSERT(q == g_self && OWNS(lk) && lk->m == &q->mtx_, "add_new precondition: the receiver's lock is held");
+  VX_ASSERT(add_count >= -1, "add_new precondition: add_count is -1 (no limit) or a limit >= 0");
+  BUMP(AN.calls); AN.add_count = add_count; AN.from = Q_ID(addfrom); AN.lk_ok = (lk == g_exp_lk); AN.steal = steal;
+  size_t r = nondet_size();
+  VX_ASSUME(r <= (size_t) VX_BIG && (add_count < 0 || r <= (size_t) add_count));   /* add_new's postcondition (6) */
+  AN.ret = r;
+  return r;
+}
+static size_t map_size(struct tq *q) { VX_ASSERT(q == g_self && LOCKED(q), "thread_map_ is accessed only under mtx_"); return (size_t) g_map; }
+static bool wi_empty(struct tq *q) { return nondet_bool(); }      /* work_items_.empty(): lock-free, any answer */
 
 /* ---- initialisation shared by the harnesses (dfcc makes every static nondeterministic) ---- */
 static void hops_task_init(struct thread_init_data *d)
-{ d->initial_state = nondet_i8(); d->stacksize = nondet_i8(); d->priority = nondet_i8(); d->run_now = nondet_bool(); }
+{ d->initial_state = nondet_i8(); d->stacksize = nondet_i8(); d->priority = nondet_i8(); d->run_now = nondet_bool(); d->schedulehint.hint = nondet_i16(); d->schedulehint.mode = nondet_i8(); }
 static void hops_ghost_init(void)
 {
   G = (struct hops){0};                                   /* every counter 0, every flag false, every id 0 */
-  CFG.self = 1; CFG.expect_steal = false; CFG.term_pops_by_others = true; throws.value = 0;
+  CFG.self = 1; CFG.expect_steal = false; CFG.term_pops_by_others = true; CFG.lemma = false; throws.value = 0;
   hops_task_init(&G.victim_task.data); hops_task_init(&G.other_task.data); hops_task_init(&G.new_task.data);
   hops_task_init(&G.victim_init); hops_task_init(&G.other_init);
 }
@@ -433,6 +565,9 @@ static void hops_queue_init(struct tq *q)
   q->parameters_.max_thread_count_ = nondet_i64(); q->parameters_.min_add_new_count_ = nondet_i64(); q->parameters_.max_add_new_count_ = nondet_i64();
   q->parameters_.max_delete_count_ = nondet_i64(); q->parameters_.min_delete_count_ = nondet_i64(); q->parameters_.max_terminated_threads_ = nondet_i64();
   q->mtx_.held = false;
+  q->parameters_.small_stacksize_ = nondet_ptrdiff(); q->parameters_.medium_stacksize_ = nondet_ptrdiff(); q->parameters_.large_stacksize_ = nondet_ptrdiff();
+  q->parameters_.huge_stacksize_ = nondet_ptrdiff(); q->parameters_.nostack_stacksize_ = nondet_ptrdiff();
+  heap_init(&q->thread_heap_small_); heap_init(&q->thread_heap_medium_); heap_init(&q->thread_heap_large_); heap_init(&q->thread_heap_huge_); heap_init(&q->thread_heap_nostack_);
   q->thread_map_count_ = 0; q->terminated_items_count_ = nondet_i64(); q->new_tasks_count_ = nondet_i64(); q->work_items_count_ = nondet_i64();
   q->gs_entries = nondet_long(); q->gs_resv = 0; q->gs_owed = 0; q->gs_victim = false;
   q->gs_pushes = q->gs_pops = q->gs_incs = q->gs_decs = 0;
